@@ -266,16 +266,21 @@ static size_t curlCallback_receive(char *ptr, size_t size, size_t nmemb, void *u
 				"[%p] Async Curl HTTP: [%p] too many bytes received %llu bytes (%llu in total).",
 				curlReq->client, curlReq,
 				(unsigned long long)bytesReceived, (unsigned long long)totalCount);
+		/* Signal the error to libcurl (the returned count must differ from the received count). */
+		totalCount = bytesReceived + 1;
 		goto cleanup;
 	}
 
 	if (totalCount > curlReq->cap) {
 		size_t newCap = totalCount + 255;
 		tmp_buffer = KSI_calloc(newCap, sizeof(unsigned char));
-		if (tmp_buffer == NULL) goto cleanup;
+		if (tmp_buffer == NULL) {
+			totalCount = bytesReceived + 1;
+			goto cleanup;
+		}
 		curlReq->cap = newCap;
 
-		memcpy(tmp_buffer, curlReq->raw, curlReq->len);
+		if (curlReq->len > 0) memcpy(tmp_buffer, curlReq->raw, curlReq->len);
 		KSI_free(curlReq->raw);
 	} else {
 		tmp_buffer = curlReq->raw;
